@@ -186,8 +186,10 @@
                           fields)                                                                            \
   /* 统计SIMPLE成员数量，过多时定义整体缓存 */                                               \
   mutable ::std::conditional<                                                                                \
-      (10 > (0 BOOST_PP_SEQ_FOR_EACH_R(1, __BABYLON_SERIALIZABLE_COUNT_FIELD,                                \
-                                       _, fields))),                                                         \
+      (10 > (0 BOOST_PP_SEQ_FOR_EACH_R(1, __BABYLON_SERIALIZABLE_COUNT_BASE, _,                              \
+                                       base)                                                                 \
+                 BOOST_PP_SEQ_FOR_EACH_R(1, __BABYLON_SERIALIZABLE_COUNT_FIELD,                              \
+                                         _, fields))),                                                       \
       ::babylon::ZeroSized, uint32_t>::type __babylon_cached_serialized_size {                               \
       0};                                                                                                    \
   /* 授权给SerializationHelper确保接口函数可以被框架调用 */                                  \
@@ -307,6 +309,18 @@
 
 #define __BABYLON_SERIALIZABLE_PRINT_FIELD(r, data, field) \
   &&::babylon::SerializationHelper::print_field(BOOST_PP_STRINGIZE(BOOST_PP_TUPLE_ELEM(0, field)), BOOST_PP_TUPLE_ELEM(0, field), ps)
+
+#define __BABYLON_SERIALIZABLE_COUNT_BASE(r, data, base)                       \
+  +(::babylon::SerializeTraits<BOOST_PP_TUPLE_ELEM(                            \
+                0, base)>::SERIALIZED_SIZE_COMPLEXITY ==                       \
+            ::babylon::SerializationHelper::SERIALIZED_SIZE_COMPLEXITY_COMPLEX \
+        ? 10                                                                   \
+        : (::babylon::SerializeTraits<BOOST_PP_TUPLE_ELEM(                     \
+                       0, base)>::SERIALIZED_SIZE_COMPLEXITY ==                \
+                   ::babylon::SerializationHelper::                            \
+                       SERIALIZED_SIZE_COMPLEXITY_TRIVIAL                      \
+               ? 0                                                             \
+               : 1))
 
 #define __BABYLON_SERIALIZABLE_COUNT_FIELD(r, data, field)                     \
   +(::babylon::SerializeTraits<decltype(BOOST_PP_TUPLE_ELEM(                   \
